@@ -145,7 +145,7 @@ def strip_generics(p):
         c = p[i]
         if c == "<":
             d += 1
-        elif c == ">":
+        elif c == ">" and not (i > 0 and p[i - 1] == "-"):
             d -= 1
         elif d == 0:
             out.append(c)
@@ -335,6 +335,8 @@ class Ctx:
                 return v.cell, v.path
             if isinstance(v, Agg) and type_head(v.ty) in ("Box", "Rc", "Arc") and "inner" in v.attrs:
                 return v.attrs["inner"], ()
+            if isinstance(v, Obj) and hasattr(v, "cell"):
+                return v.cell, ()
             raise Unsupported("deref of %r" % (v,))
         if k == "field":
             c, p = self.loc(frame, place[1])
